@@ -1,7 +1,7 @@
 (* C17 - Long-form DIDs resolve offline, only in their own namespace, to what was created. *)
 From Coq Require Import ZArith NArith String Ascii List Bool.
 From Sidetree Require Import Base.Base64url Json.Json Json.Jcs Sidetree.Protocol Sidetree.JsonPatch Sidetree.Composer Sidetree.Parser Sidetree.LongForm
-     Json.JcsProps Json.JcsRoundTrip Sidetree.JsonPatch Sidetree.Composer Sidetree.Validator Sidetree.Hashing Sidetree.JequivDecode Sidetree.ClientCreate Sidetree.LongFormComplete.
+     Json.JcsProps Json.JcsRoundTrip Sidetree.JsonPatch Sidetree.Composer Sidetree.Validator Sidetree.Hashing Sidetree.JequivDecode Sidetree.ClientCreate Sidetree.LongFormComplete Sidetree.ClientSimple.
 Import ListNotations.
 Open Scope string_scope.
 
@@ -47,11 +47,10 @@ Theorem C17_built_did_resolves : forall uri_ok url_norm i bytes sd d ns sfx,
   (Z.of_nat (String.length (sd_delta_hash sd)) <= P_MaxOperationHashLength longform_protocol)%Z ->
   (forall c, jcs (img_delta d) = Some c -> (Z.of_nat (String.length c) <= P_MaxDeltaSize longform_protocol)%Z) ->
   Forall is_obj (ci_patches i) -> Forall wfnum (ci_patches i) -> wfnum (ci_origin i) ->
-  (forall p p', In p (ci_patches i) -> jequiv p p' ->
-                patch_enabled longform_protocol p' = true /\ validate_patch uri_ok url_norm p' = true) ->
+  patches_valid longform_protocol uri_ok url_norm (ci_patches i) ->
   resolve uri_ok url_norm ns (ns ++ ":" ++ sfx ++ ":" ++ b64_encode bytes) =
   create_response uri_ok url_norm ns sfx (b64_encode bytes) bytes.
-Proof. exact built_longform_did_resolves. Qed.
+Proof. exact built_longform_did_resolves_simple. Qed.
 Print Assumptions C17_built_did_resolves.
 
 Example C17_nonvacuous :
